@@ -25,3 +25,24 @@ impl vstd::std_specs::convert::FromSpecImpl<StorageError> for AkdError {
     open spec fn obeys_from_spec() -> bool { true }
     open spec fn from_spec(e: StorageError) -> Self { AkdError::Storage(e) }
 }
+
+// ---- batch insertion
+impl vstd::std_specs::convert::FromSpecImpl<Vec<AzksElement>> for AzksElementSet {
+    closed spec fn obeys_from_spec() -> bool { true }
+    closed spec fn from_spec(nodes: Vec<AzksElement>) -> Self { set_from(nodes) }
+}
+// AzksElementSet::from(nodes): some arrangement of the same elements (sorted when all labels have one length) - only the length matters here
+pub uninterp spec fn set_from(nodes: Vec<AzksElement>) -> AzksElementSet;
+pub open spec fn set_len(s: AzksElementSet) -> int {
+    match s { AzksElementSet::BinarySearchable(v) => v@.len() as int, AzksElementSet::Unsorted(v) => v@.len() as int }
+}
+#[verifier::external_body]
+pub proof fn axiom_set_from_len(nodes: Vec<AzksElement>)
+    ensures set_len(set_from(nodes)) == nodes@.len()
+{}
+impl From<Vec<AzksElement>> for AzksElementSet {
+    #[verifier::external_body]
+    fn from(nodes: Vec<AzksElement>) -> (r: Self) { unimplemented!() }
+}
+// permission to (re)write the root record: granted by the caller only for a non-empty batch
+pub uninterp spec fn root_write_permitted() -> bool;
